@@ -19,6 +19,12 @@ def mvGet (m : MV) (h : Nat) : Option Nat := m.lookup h
 /-- `dict[h] = v` -/
 def mvSet (m : MV) (h v : Nat) : MV := (h, v) :: m.filter (fun p => p.1 != h)
 
+/-- `dict.setdefault(h, v)`: the dictionary afterwards -/
+def mvSetDefault (m : MV) (h v : Nat) : MV :=
+  match mvGet m h with
+  | some _ => m
+  | none => mvSet m h v
+
 /-- outcome of `get_succeeding_event` -/
 inductive GetRes (κ : Type) where
   /-- returned handler and the time of its event -/
@@ -52,9 +58,7 @@ def HSched.push (cfg : Cfg κ) (W : Nat) (s : HSched κ) (t : κ) (h : Nat) : HS
   if cfg.finite t then
     -- self._minimal_valid_counter.setdefault(event_handler, 0)   (evaluated before the call)
     let c := (mvGet s.mv h).getD 0
-    let mv := match mvGet s.mv h with
-      | some _ => s.mv
-      | none => mvSet s.mv h 0
+    let mv := mvSetDefault s.mv h 0
     if c < W then
       { s with mv := mv, heap := insert cfg s.heap t h c }
     else
